@@ -51,7 +51,7 @@ func init() {
 					return nil
 				}
 				return seeded("C03", seed, 6, func(i int, sd uint64) *k.Spec {
-					s := &k.Spec{Params: cp(c03Confs[i%3], "crashat", fmt.Sprint(k.H(sd, "at", 0)%3000)+"ms")}
+					s := &k.Spec{Seed: sd, Params: cp(c03Confs[i%3], "crashat", fmt.Sprint(k.H(sd, "at", 0)%3000)+"ms")}
 					swarm(s, "")
 					return s
 				})
@@ -124,7 +124,7 @@ func init() {
 				}
 				out = append(out, seeded("C03", seed, n, func(i int, sd uint64) *k.Spec {
 					c := confs[int(k.H(sd, "conf", 0)%uint64(len(confs)))]
-					s := &k.Spec{Params: cp(c, "crashat", fmt.Sprint(k.H(sd, "at", 0)%3500)+"ms", "crashkind", []string{"kill", "kill", "exit", "stop-then-kill"}[k.H(sd, "kind", 0)%4])}
+					s := &k.Spec{Seed: sd, Params: cp(c, "crashat", fmt.Sprint(k.H(sd, "at", 0)%3500)+"ms", "crashkind", []string{"kill", "kill", "exit", "stop-then-kill"}[k.H(sd, "kind", 0)%4])}
 					swarm(s, "")
 					if s.DelayClass == "big" {
 						s.DelayClass = "mid"
